@@ -34,7 +34,8 @@ func layoutsOf(nRegions int) [][][]byte {
 	return out
 }
 
-const scenarioTimeout = 20 * time.Second
+// generous: a scenario takes milliseconds; the limit only has to tell a hang from a machine that is busy with other work
+const scenarioTimeout = 60 * time.Second
 
 // runAll runs the functions concurrently and waits for all of them; false (and a `hang` event) on timeout.
 func runAll(w *hub.World, timeout time.Duration, fns ...func()) bool {
